@@ -130,3 +130,19 @@ Proof. split; reflexivity. Qed.
 (* with too few inner bits the entry (0,2) is read back as (1,0): the hypothesis of the round trip is needed *)
 Example indexmap_too_narrow_refuted : im_unpack 1 (im_pack 1 0 2) = (1, 0).
 Proof. reflexivity. Qed.
+
+(* gvar: 5 glyphs, .notdef skipped, glyph 3 has no data, glyph 2 has ODD length and is padded in the short
+   format (stored = offset / 2); under RETAIN_GIDS with glyph 2 dropped the gap repeats the running offset *)
+Example ex_gvar : gvar_subset [10; 20; 31; 0; 40] false false [0; 1; 2; 3; 4] = (0, [0; 0; 10; 26; 26; 46])
+  /\ gvar_subset [10; 20; 31; 0; 40] true true [0; 1; 4] = (0, [0; 5; 15; 15; 15; 35])
+  /\ (forall g, 0 <= gv_len [10; 20; 31; 0; 40] g)
+  /\ gv_long [10; 20; 31; 0; 40] false false [0; 1; 2; 3; 4] = false.
+Proof.
+  repeat split; try reflexivity.
+  intros g. unfold gv_len, znth. destruct (g <? 0); [lia|]. destruct (Z.to_nat g) as [|[|[|[|[|k]]]]]; cbn; try lia. destruct k; cbn; lia.
+Qed.
+(* above 0x1FFFE of padded data the long format is chosen and offsets are stored as they are (no padding);
+   the witness of the old defect (high-gid glyph with a lot of data, rank renumbering) now gets the long format *)
+Example ex_gvar_long : gvar_subset [0; 100000; 100001] true true [0; 1; 2] = (1, [0; 0; 100000; 200001])
+  /\ gvar_subset [0; 2; 200000] false false [0; 2] = (1, [0; 0; 200000]).
+Proof. split; reflexivity. Qed.
